@@ -423,3 +423,53 @@ Example C20_replace_scan_decomposition_witness :
   expand gs (bs "{a}{b}{a}") = Ok (bs "\{b}\\\}{a}{\{b}\") /\
   expand gs (bs "{b}x\{{a}\}{c}") = Ok (bs "\\}{a}{x{\{b}\}-").
 Proof. vm_compute. split; reflexivity. Qed.
+
+(* ============================ several log directives per site =============================== *)
+
+(* logParse over the list of `log` directives of a site (arguments + block lines, as the dispenser
+   hands them over): parsing succeeds iff every directive parses when read ALONE, and then the
+   i-th entry - scope, output file, format, except list - is exactly what the i-th directive means
+   read alone: no except path, scope or format is carried from one directive's parse to the next. *)
+Theorem C20_each_log_directive_is_its_own :
+  forall ds es, log_parse ds = Some es <-> map parse_dir ds = map Some es.
+Proof. exact log_parse_each_its_own. Qed.
+Print Assumptions C20_each_log_directive_is_its_own.
+
+Theorem C20_log_directive_entry :
+  forall ds es i d, log_parse ds = Some es -> nth_error ds i = Some d ->
+  exists e, nth_error es i = Some e /\ parse_dir d = Some e.
+Proof. exact log_parse_nth. Qed.
+Print Assumptions C20_log_directive_entry.
+
+(* both orders of the file (and any concatenation) give the same entries *)
+Theorem C20_log_directives_order :
+  forall ds es, log_parse ds = Some es -> log_parse (rev ds) = Some (rev es).
+Proof. exact log_parse_rev. Qed.
+Print Assumptions C20_log_directives_order.
+
+Theorem C20_log_directives_concat :
+  forall ds1 ds2 es1 es2,
+  log_parse ds1 = Some es1 -> log_parse ds2 = Some es2 -> log_parse (ds1 ++ ds2) = Some (es1 ++ es2).
+Proof. exact log_parse_app. Qed.
+Print Assumptions C20_log_directives_concat.
+
+(* ... so that a request gets exactly one line per configured log iff it is inside the scope
+   written in that directive and not excepted by the except list written in that directive's
+   own block - for every file of raw directives, every request and handler outcome *)
+Theorem C20_one_line_per_raw_directive :
+  forall c cs tbl (haserr hdrw : bool) ds es path ops ret,
+  log_parse ds = Some es ->
+  counts_ok cs (map dir_of es) 0 path (snd (site_serve c cs tbl haserr hdrw (map dir_of es) path ops ret)) = true /\
+  map (fun d => option_map dir_of (parse_dir d)) ds = map (fun e => Some (dir_of e)) es.
+Proof. exact raw_one_line_per_log. Qed.
+Print Assumptions C20_one_line_per_raw_directive.
+
+(* hypotheses reachable; and the variant of the loop whose block variables are declared BEFORE
+   the loop (a seeded-change class) is a different function: the second directive inherits the
+   first one's except list and format *)
+Example C20_each_log_directive_is_its_own_nonvacuous :
+  exists ds es es', log_parse ds = Some es /\ log_parse (rev ds) = Some (rev es) /\
+    log_parse_carried ds = Some es' /\
+    map pe_except es = [[bs "/a/x"]; []] /\ map pe_except es' = [[bs "/a/x"]; [bs "/a/x"]] /\
+    map pe_format es = [bs "{status}"; lit_default_format] /\ map pe_format es' = [bs "{status}"; bs "{status}"].
+Proof. exact log_parse_carried_differs. Qed.
